@@ -11,13 +11,14 @@
                                                                                     concatenation `''.join(self.data)`)
   startElementNS(tag, qname, attrs):                                               `stepStart`
      if tag in triggers: parse = True                                                 `isTrigger`
-     if doc._parsing != "styles.xml" and tag == office:font-face-decls: parse=False   `stylesPart`
+     if basename(doc._parsing) != "styles.xml" and tag == office:font-face-decls: …   `stylesPart` (`stylesPartOf`)
      if not parse: return
      content = ''.join(data); if content: parent.addText(content); data = []           `addToParent` (`addText` skips '')
      e = Element(qname=tag, qattributes=attrs, check_grammar=False); curr = e          frame ⟨q, attrs, []⟩
      if tag is one of the eight section elements: e = the document's section object    `secOfTrigger`: the element just
-         (office:font-face-decls only while parsing styles.xml)                        built — WITH ITS ATTRIBUTES — is
-                                                                                       dropped (`currDet`)
+         (office:font-face-decls only while parsing styles.xml)                        built is dropped (`currDet`), the
+         for att, value in attrdict.items(): e.setAttrNS(..)   (fix 2a48e47)           section object gets its attributes
+                                                                                       (`Doc.putAttrs`)
      elif hasattr(self,'parent'): parent.addElement(e)                                 push frame; `attachHook`
      parent = e
   endElementNS(tag, qname):                                                        `stepStop`
@@ -40,8 +41,8 @@
   Attribute values: `Element.setAttrNS` passes every value through its converter (C15).  The model stores the
   values it is given; the harness applies the real converter to the recorded events before it sends them.
 
-  `__fixXmlPart`: `fixXmlPart` (substring test on the ORIGINAL text, first index of " xmlns:" in the RESULT so far,
-  splice).
+  `__fixXmlPart` (as of fix 4cb8050): `fixXmlPart` — regex search for the document element's name, the text up to the
+  next `>` as "root tag", a white-space tolerant test per prefix on it, splice right after the element name.
 -/
 import OdfModel.Xml.Tree
 namespace OdfModel.LoadSax
@@ -133,6 +134,8 @@ structure Doc where
   scripts : Forest := .nil
   settings : Forest := .nil
   styles : Forest := .nil
+  /-- the attributes of the section objects themselves (office:body … ): none on a fresh document -/
+  sattrs : Sec → List (QName × Str) := fun _ => []
 
 def Doc.get (d : Doc) : Sec → Forest
   | .autoStyles => d.autoStyles | .body => d.body | .fontFace => d.fontFace | .master => d.master
@@ -232,6 +235,17 @@ def setA (k : QName) (v : Str) : List (QName × Str) → List (QName × Str)
   | [] => [(k, v)]
   | (q, w) :: r => if q = k then (k, v) :: r else (q, w) :: setA k v r
 
+/-- `for (att, value) in attrdict.items(): e.setAttrNS(att[0], att[1], value)` on an element that may already have
+    attributes: an existing key keeps its place and takes the new value, a new key is appended -/
+def putAttrs (cur : List (QName × Str)) : List (QName × Str) → List (QName × Str)
+  | [] => cur
+  | (k, v) :: r => putAttrs (setA k v cur) r
+
+/-- (fix 2a48e47) the section object receives the attributes of the section element of the file; when the same
+    section occurs in several parts (office:automatic-styles in content.xml and styles.xml) later values overwrite -/
+def Doc.putAttrs (d : Doc) (s : Sec) (a : List (QName × Str)) : Doc :=
+  { d with sattrs := fun s' => if s' = s then OdfModel.LoadSax.putAttrs (d.sattrs s) a else d.sattrs s' }
+
 def lookupFix (k : Str) : List (Str × Str) → Option Str
   | [] => none
   | (a, b) :: r => if a = k then some b else lookupFix k r
@@ -287,8 +301,10 @@ def stepStart (st : St) (q : QName) (attrs : List (QName × Str)) : Option St :=
     | some st1 =>
       match secOfTrigger q with
       | some s =>
-        -- the element that was built is dropped; `parent` becomes the section object
-        some { settle st1 with root := .sec s, spine := [], currDet := true }
+        -- the element that was built is dropped (`curr` still points to it); `parent` becomes the section
+        -- object, which receives the attributes of the file (fix 2a48e47)
+        let st2 := settle st1
+        some { st2 with doc := st2.doc.putAttrs s attrs, root := .sec s, spine := [], currDet := true }
       | none =>
         match st1.spine, st1.root with
         | [], .unset => some { st1 with root := .det, currDet := false }    -- not attached: it IS the lost element
@@ -335,9 +351,12 @@ def run (st : St) : List Event → Option St
 /-- `styles.xml` -/
 def sStylesXml : Str := [115, 116, 121, 108, 101, 115, 46, 120, 109, 108]
 
-/-- `doc._parsing == "styles.xml"`: `_parsing` is the member name INCLUDING the object folder, so this is false for
-    both parts of every sub-document ("Object 1/styles.xml") -/
-def stylesPartOf (member : Str) : Bool := member = sStylesXml
+/-- `s.rsplit('/', 1)[-1]` -/
+def baseName (s : Str) : Str := (s.reverse.takeWhile (· != 47)).reverse
+
+/-- (fix 934baed) `doc._parsing.rsplit('/', 1)[-1] == "styles.xml"`: `_parsing` is the member name including the
+    object folder ("Object 1/styles.xml"); only its base name is compared -/
+def stylesPartOf (member : Str) : Bool := baseName member = sStylesXml
 
 /-- `settings.xml`, `meta.xml`, `content.xml` -/
 def sSettingsXml : Str := [115, 101, 116, 116, 105, 110, 103, 115, 46, 120, 109, 108]
@@ -388,8 +407,8 @@ def normEv : List Event → List Event
 
 /-! ### the four parts `save` writes, as trees (contentxml / stylesxml / metaxml / settingsxml)
 
-  `usedC` / `usedS` are the automatic styles `_used_auto_styles` selects for content.xml / styles.xml (C10's subject:
-  a parameter here).  A section element is written with the attributes of the section object (none on a document
+  `usedC` / `usedS` are the automatic styles `_used_auto_styles` selects for content.xml (segments
+  `[styles, body]` since fix ff5b530) / styles.xml (`[masterstyles]`) — C10's subject: a parameter here.  A section element is written with the attributes of the section object (none on a document
   built through the API) — `secEl`.  scripts / font-face-decls / master-styles are written only `if hasChildNodes()`. -/
 
 def lGenerator : Str := [103, 101, 110, 101, 114, 97, 116, 111, 114]
@@ -423,29 +442,34 @@ def genNode (tv : Str) : Node := .elem qGenerator [] (if tv.isEmpty then .nil el
 /-- `__replaceGenerator`: every meta:generator child removed, a new one appended -/
 def normGen (tv : Str) (m : Forest) : Forest := appF (filterNG m) (.cons (genNode tv) .nil)
 
-def secEl (s : Sec) (f : Forest) : Node := .elem (qOfSec s) [] f
+/-- a section object written with `toXml`: its own attributes, its children -/
+def secEl (d : Doc) (s : Sec) (f : Forest) : Node := .elem (qOfSec s) (d.sattrs s) f
+
+/-- `a = AutomaticStyles()`: contentxml / stylesxml write the selected styles inside a FRESH element, so the
+    attributes of `doc.automaticstyles` are never written -/
+def autoEl (f : Forest) : Node := .elem qAutoStyles [] f
 
 /-- `if x.hasChildNodes(): x.toXml(1, xml)` -/
-def ifKids (s : Sec) (f : Forest) : Forest :=
+def ifKids (d : Doc) (s : Sec) (f : Forest) : Forest :=
   match f with
   | .nil => .nil
-  | f => .cons (secEl s f) .nil
+  | f => .cons (secEl d s f) .nil
 
 def contentTree (d : Doc) (usedC : Forest) : Node :=
   .elem qDocContent verAttrs
-    (appF (ifKids .scripts d.scripts) (appF (ifKids .fontFace d.fontFace)
-      (.cons (secEl .autoStyles usedC) (.cons (secEl .body d.body) .nil))))
+    (appF (ifKids d .scripts d.scripts) (appF (ifKids d .fontFace d.fontFace)
+      (.cons (autoEl usedC) (.cons (secEl d .body d.body) .nil))))
 
 def stylesTree (d : Doc) (usedS : Forest) : Node :=
   .elem qDocStyles verAttrs
-    (appF (ifKids .fontFace d.fontFace)
-      (.cons (secEl .styles d.styles) (.cons (secEl .autoStyles usedS) (ifKids .master d.master))))
+    (appF (ifKids d .fontFace d.fontFace)
+      (.cons (secEl d .styles d.styles) (.cons (autoEl usedS) (ifKids d .master d.master))))
 
 def metaTree (tv : Str) (d : Doc) : Node :=
-  .elem qDocMeta verAttrs (.cons (secEl .metaS (normGen tv d.metaS)) .nil)
+  .elem qDocMeta verAttrs (.cons (secEl d .metaS (normGen tv d.metaS)) .nil)
 
 def settingsTree (d : Doc) : Node :=
-  .elem qDocSettings verAttrs (.cons (secEl .settings d.settings) .nil)
+  .elem qDocSettings verAttrs (.cons (secEl d .settings d.settings) .nil)
 
 /-- `_saveXmlObjects`: settings.xml is written only `if settings.hasChildNodes()` -/
 def writesSettings (d : Doc) : Bool := match d.settings with | .nil => false | _ => true
@@ -470,6 +494,8 @@ def indexOf (pat : Str) : Str → Option Nat
 
 /-- ` xmlns:` -/
 def sXmlnsSp : Str := [32, 120, 109, 108, 110, 115, 58]
+/-- `xmlns:` -/
+def sXmlnsC : Str := [120, 109, 108, 110, 115, 58]
 /-- `="urn:oasis:names:tc:opendocument:xmlns:` -/
 def sInsMid : Str := [61, 34, 117, 114, 110, 58, 111, 97, 115, 105, 115, 58, 110, 97, 109, 101, 115, 58, 116, 99, 58, 111, 112, 101, 110, 100, 111, 99, 117, 109, 101, 110, 116, 58, 120, 109, 108, 110, 115, 58]
 /-- `:1.0"` -/
@@ -483,13 +509,50 @@ def requested : List Str :=
 /-- ` xmlns:{prefix}="urn:oasis:names:tc:opendocument:xmlns:{prefix}:1.0"` -/
 def toInsert (p : Str) : Str := sXmlnsSp ++ p ++ sInsMid ++ p ++ sInsEnd
 
-/-- one round of the loop: the test looks at the ORIGINAL text, the splice at the result so far -/
-def fixStep (orig : Str) (result : Str) (p : Str) : Str :=
-  if isInfix (sXmlnsSp ++ p) orig then result
-  else match indexOf sXmlnsSp result with
-    | none => result                                  -- `except: pass`
-    | some pos => result.take pos ++ toInsert p ++ result.drop pos
+/-- `\s` of Python's `re` on `str` (compared with the real `re` on every code point by the harness) -/
+def isPySpace (c : Cp) : Bool :=
+  (9 ≤ c && c ≤ 13) || (28 ≤ c && c ≤ 32) || c == 0x85 || c == 0xA0 || c == 0x1680 || (0x2000 ≤ c && c ≤ 0x200A) ||
+  c == 0x2028 || c == 0x2029 || c == 0x202F || c == 0x205F || c == 0x3000
 
-def fixXmlPart (x : Str) : Str := requested.foldl (fixStep x) x
+/-- `[^\s/>]` -/
+def isRootNameCh (c : Cp) : Bool := !(isPySpace c || c == 47 || c == 62)
+
+/-- `re.search(u'<(?![?!])[^\s/>]+', x)`: the END of the first match (`root.end()`), scanning `x` from offset `i` -/
+def findRootEnd : Str → Nat → Option Nat
+  | [], _ => none
+  | c :: r, i =>
+    if c == 60 then
+      match r with
+      | d :: _ =>
+        if d != 63 && d != 33 && isRootNameCh d then some (i + 1 + (r.takeWhile isRootNameCh).length)
+        else findRootEnd r (i + 1)
+      | [] => none
+    else findRootEnd r (i + 1)
+
+/-- `xmlpart[e : xmlpart.find(u'>', e)]` (`find` returning -1 makes the slice end before the last character) -/
+def rootTagText (x : Str) (e : Nat) : Str :=
+  let t := x.drop e
+  if t.contains 62 then t.takeWhile (· != 62) else t.dropLast
+
+/-- `\sxmlns:<p>\s*=` matches at the head of the text -/
+def declAt (p : Str) : Str → Bool
+  | [] => false
+  | c :: r => isPySpace c && isPrefixOf (sXmlnsC ++ p) r &&
+      ((r.drop (sXmlnsC ++ p).length).dropWhile isPySpace).head? == some 61
+
+/-- `re.search(u'\sxmlns:%s\s*=' % p, roottag)` -/
+def declares (p : Str) : Str → Bool
+  | [] => false
+  | c :: r => declAt p (c :: r) || declares p r
+
+/-- one round of the loop (fix 4cb8050): the test looks at the document element's start tag up to the first `>`,
+    the splice goes right after the element name -/
+def fixStep (tag : Str) (e : Nat) (result : Str) (p : Str) : Str :=
+  if declares p tag then result else result.take e ++ toInsert p ++ result.drop e
+
+def fixXmlPart (x : Str) : Str :=
+  match findRootEnd x 0 with
+  | none => x
+  | some e => requested.foldl (fixStep (rootTagText x e) e) x
 
 end OdfModel.LoadSax
